@@ -17,13 +17,21 @@ class Spec:
     checks = {"content", "ood-after"}
 
     def cases(self, tier):
-        return 1600 if tier == "quick" else 16000
+        return 2400 if tier == "quick" else 24000
 
     def strategy(self, tier):
+        from hypothesis import strategies as st
         o = {"p_csum": 35}
+        # a second family dense in checksummed targets and source edits with longer histories: staleness that
+        # needs "out-of-band rebuild of the consumer, then another edit" lives here
+        d = {"p_failflag": 5, "p_csum": 60, "p_always": 5, "p_ifc": 5, "min_ops": 8, "max_ops": 16,
+             "max_cmd_targets": 1,
+             "weights": {"cmd": 45, "edit": 34, "failflag": 1, "setdo": 3, "adddo": 1, "rmdo": 1, "rmtarget": 6,
+                         "redo": 4, "mkpath": 1, "rmpath": 1, "ext": 1, "touch": 3}}
         if tier == "thorough":
             o.update(max_targets=14, max_ops=30)
-        return gen.histories(o)
+            d.update(max_targets=12, max_ops=30)
+        return st.one_of(gen.histories(o), gen.histories(d))
 
     def run_case(self, case, tier):
         return hist.HistoryRunner(case, self.checks, tag="c01").run()
